@@ -182,6 +182,52 @@ def build(case):
             e = np.concatenate([e, np.array(newe, dtype=int)])
             c = np.concatenate([c, np.array(newc, dtype=int)])
         return p, e, c
+    if f == "tiny":                 # a very small (area < 1e-8) or very thin irregular polygon as a free component inside a convex face:
+        p, e, c = build(case["base"])      # still a legitimate plaquette with a centroid that is far (relative to its size) from its vertex mean
+        rng = np.random.default_rng([case["seed"], len(e), 23])
+        lat = Lattice(p, e, c)
+        newp, newe, newc = [], [], []
+        for pl in lat.plaquettes:
+            if rng.uniform() >= case.get("frac", 0.5) or len(pl.vertices) < 3:
+                continue
+            vec = lat.edges.vectors[pl.edges] * pl.directions[:, None]
+            cr = vec[:, 0] * np.roll(vec[:, 1], -1) - vec[:, 1] * np.roll(vec[:, 0], -1)
+            if not np.all(cr > 1e-9):
+                continue
+            pts = p[pl.vertices[0]] + np.concatenate([[[0.0, 0.0]], np.cumsum(vec, 0)[:-1]])
+            ctr = pts.mean(axis=0)
+            nxt = np.roll(pts, -1, axis=0)
+            def inside(q):
+                return bool(np.all((nxt[:, 0] - pts[:, 0]) * (q[1] - pts[:, 1]) - (nxt[:, 1] - pts[:, 1]) * (q[0] - pts[:, 0]) > 1e-6))
+            kind = case.get("kind", "kite")
+            if kind == "kite":        # irregular quadrilateral / pentagon of diameter ~ size (anticlockwise, star-shaped about ctr)
+                m = int(rng.integers(4, 6))
+                ang = np.sort(rng.uniform(0, 2 * np.pi / m * 0.6, size=m) + 2 * np.pi / m * np.arange(m)) + rng.uniform(0, 2 * np.pi)
+                rad = case["size"] * rng.uniform(0.35, 1.0, size=m)
+                poly = ctr + np.stack([rad * np.cos(ang), rad * np.sin(ang)], axis=1)
+            else:                     # thin trapezoid: long side L, short side L/3, height h (area ~ 2/3 L h)
+                L, h = case["size"], case["height"]
+                th = rng.uniform(0, 2 * np.pi)
+                ux, uy = np.array([np.cos(th), np.sin(th)]), np.array([-np.sin(th), np.cos(th)])
+                poly = np.array([ctr - L / 2 * ux, ctr + L / 2 * ux, ctr + (L / 2 - L / 3 * 2) * ux + h * uy, ctr - L / 2 * ux + h * uy])
+            if not all(inside(q) for q in poly):
+                continue
+            base = len(p) + len(newp)
+            fl = []
+            for q in poly:
+                n = np.floor(q)
+                newp.append(q - n)
+                fl.append(n.astype(int))
+            m = len(poly)
+            for i in range(m):
+                j = (i + 1) % m
+                newe.append([base + i, base + j])
+                newc.append(fl[j] - fl[i])
+        if newp:
+            p = np.concatenate([p, np.array(newp)])
+            e = np.concatenate([e, np.array(newe, dtype=int)])
+            c = np.concatenate([c, np.array(newc, dtype=int)])
+        return p, e, c
     if f == "island":               # one plaquette cut free from the rest: a contractible island component with a cycle inside a
         p, e, c = build(case["base"])      # lattice that is still periodic; the walk round the OUTSIDE of the island is clockwise, not a plaquette
         rng = np.random.default_rng([case["seed"], len(e), 19])
@@ -330,6 +376,15 @@ def lattice_cases(tier, seed, exhaustive=True):
         pc = {"family": "pinch", "base": b, "seed": int(rng.integers(0, 2**31)), "frac": float(rng.choice([0.3, 0.6]))}
         cases.append(pc)
         cases.append({"family": "relabel", "base": pc, "seed": int(rng.integers(0, 2**31)), "flip": 0.5, "vertices": bool(i % 2)})
+    # tiny / thin plaquettes (area below 1e-8): still plaquettes, with the area centroid as centre
+    for i in range(min(len(pbase), 24 if tier == "quick" else 200)):
+        b = pbase[int(rng.integers(0, len(pbase)))]
+        if i % 3 == 2:
+            cases.append({"family": "tiny", "base": b, "seed": int(rng.integers(0, 2**31)), "kind": "sliver", "frac": 0.4,
+                          "size": float(rng.choice([0.05, 0.02])), "height": float(rng.choice([1e-7, 3e-8]))})
+        else:
+            cases.append({"family": "tiny", "base": b, "seed": int(rng.integers(0, 2**31)), "kind": "kite", "frac": 0.4,
+                          "size": float(rng.choice([6e-5, 4e-5]))})
     if exhaustive:
         cases += exhaustive_subset_cases(ex_edges)
         # and relabelled edge subsets of the small bases (dangling edges inside faces, bridges, ...)
